@@ -42,8 +42,8 @@ def run(ctx):
     ctx.audit()
     ctx.check_theorems("EmbossV.View.Properties_C01", "View/Properties_C01.v", expect_min=1)
 
-    n_mod = 150 if ctx.thorough() else 24
-    n_buf = 60 if ctx.thorough() else 40
+    n_mod = 150 if ctx.thorough() else 16
+    n_buf = 60 if ctx.thorough() else 30
     jobs, infos = [], []
     for i in range(n_mod):
         gm = gen_view.ViewModule(ctx.rng)
@@ -106,7 +106,7 @@ def run(ctx):
             cases.append(("(%d%%nat, %s)" % (k, zlist(b)), zlist(obs), dict(module=info["text"], buffer=b, cpp=obs)))
             ctx.count("buflen:%s" % ("0" if not b else "1-4" if len(b) <= 4 else "5-16" if len(b) <= 16 else ">16"))
     hdr = HEADER + "Definition mods : list (module * nat * list (maybe value)) := [\n" + ";\n".join(mods) + "\n].\n"
-    runner = fw.CoqCases(ctx, "views", hdr, "run_case mods", "zlist_eqb", "(nat * list Z)", "(list Z)", shard=150)
+    runner = fw.CoqCases(ctx, "views", hdr, "run_case mods", "zlist_eqb", "(nat * list Z)", "(list Z)", shard=60)
     bad = runner.run(cases) if cases else []
     for a, b, obj in cases:
         ctx.case((obj["module"], tuple(obj["buffer"])), nontrivial=len(obj["buffer"]) > 0,
